@@ -59,12 +59,21 @@ class Ledger:
     def __init__(self, run):
         self.held = 0
         self.puts = []            # (instant, packet id, size, bytes held before the put, refused?)
+        self.badstamp = []        # (instant, packet id, stamp found after the put, stamp carried before it)
+        self.restamped = 0        # puts of packets that already carried a stamp under this port's element id
         port = run.dev
         inner_put, inner_out, led = port.put, port.out, self
 
         def put(packet):
             d0, h = port.packets_dropped, led.held
+            eid = port.element_id
+            before = packet.perhop_time.get(eid, None) if eid else None
             inner_put(packet)
+            if eid:
+                led.restamped += before is not None
+                found = packet.perhop_time.get(eid, None)
+                if found != run.env.now:
+                    led.badstamp.append((run.env.now, packet.packet_id, found, before))
             refused = port.packets_dropped > d0
             led.puts.append((run.env.now, packet.packet_id, packet.size, h, refused))
             if not refused:
@@ -129,6 +138,17 @@ def gen_case(rng, cid, mode=None):
                     d = rng.choice([0, 0, 1, 2, 5, 0.5, drain, unit * 8 / rate if rate > 0 else 1])
                     script.append((d, [(rng.randrange(3), unit)] * rng.choice([1, k, k, k + 1, k + 2])))
             c['sources'].append(script)
+    if mode != 'red' and rng.random() < 0.35:
+        # the same Packet OBJECT is offered again later (a sender retransmitting the object after a tail drop or after a delivery, a
+        # packet on its second lap round a ring): burst entry ['re', j] = the j-th (mod count) of the packets this source offered
+        # earlier that no port of the case holds at that moment (a fresh packet if there is none yet).  Such a packet already
+        # carries a stamp under this port's element id: "stamped with its arrival time at THIS hop" means the stamp is renewed.
+        c['reoffer'] = True
+        for script in c['sources']:
+            for _, burst in script[1:]:
+                for k in range(len(burst)):
+                    if rng.random() < 0.4:
+                        burst[k] = ('re', rng.randrange(8))
     c['own_ids'] = rng.random() < 0.3          # sources number their packets independently: ids collide on the port
     c['monitor'] = None
     if rng.random() < 0.4:
@@ -171,6 +191,15 @@ def gen_group(rng, cid):
         p['shared_ids'] = rng.random() < 0.4        # packet ids drawn from the first port's counter (unique in the Environment) or its own (colliding)
         if p['monitor'] is None and rng.random() < 0.5:
             p['monitor'] = {'included': rng.random() < 0.5, 'period': rng.choice([0.5, 1, 3, 7.25])}
+        if not red and rng.random() < 0.4:
+            # a second hop on one path: the peer is (also) offered packets that have left the first port (['rf', j] = the j-th of the first
+            # port's departures that nobody holds); with an element id equal to the first port's they arrive carrying a stamp under that id
+            p['reoffer'] = True
+            for script in p['sources']:
+                for _, burst in script:
+                    for k in range(len(burst)):
+                        if burst[k][0] != 're' and rng.random() < 0.5:
+                            burst[k] = ('rf', rng.randrange(8))
         c['peers'].append(p)
     c['peers_first'] = rng.random() < 0.3           # the peers are constructed before the port under test
     return c
@@ -185,7 +214,35 @@ def header(c):
     return h
 
 
-def build(env, c, draws, counter):
+def held_somewhere(group, q):
+    return any(sum(1 for _, x in r.arrivals if x is q) > sum(1 for _, x in r.departures if x is q) for r in group['all'])
+
+
+def source9(env, run, script, counter, group):
+    """a source process as harness.fifo.source, plus the entries ['re', j] / ['rf', j]: offer an existing Packet object again"""
+    from harness.fifo import make_packet
+    mine = []
+    for delay, burst in script:
+        yield env.timeout(delay)
+        for a, b in burst:
+            p = None
+            if a in ('re', 'rf'):
+                pool, cand = (mine if a == 're' else [q for _, q in group['first'].departures]), []
+                for q in pool:
+                    if not any(q is x for x in cand) and not held_somewhere(group, q):
+                        cand.append(q)
+                if cand:
+                    p = cand[b % len(cand)]
+                else:
+                    a, b = 0, 10
+            if p is None:
+                counter[0] += 1
+                p = make_packet(env, counter[0], a, b)
+                mine.append(p)
+            run.dev.put(p)
+
+
+def build(env, c, draws, counter, group=None):
     """one port of the case (or of its group) with its sources, ledger and monitor in `env`; returns its FifoRun (not yet run)"""
     eid = c['eid'] if 'eid' in c else ('p1' if c['hasid'] else '')
     if c['mode'] == 'red':
@@ -196,7 +253,10 @@ def build(env, c, draws, counter):
     run = FifoRun(env, port, snap_port, draws if c['mode'] == 'red' else None)
     run.ledger = Ledger(run)
     for script in c['sources']:
-        env.process(source(env, run, script, [0] if c.get('own_ids') else counter, 3))
+        if c.get('reoffer'):
+            env.process(source9(env, run, script, [0] if c.get('own_ids') else counter, group))
+        else:
+            env.process(source(env, run, script, [0] if c.get('own_ids') else counter, 3))
     if c['monitor']:
         n = [0]
         def dist():
@@ -221,12 +281,14 @@ def run_impl(c):
         draws = Draws(random.Random(c.get('rseed', 12345)))
     counter = [0]
     built = []
+    group = {}
     if c.get('peers_first'):
-        built = [build(env, p, draws, counter if p.get('shared_ids') else [0]) for p in peers]
-    run = build(env, c, draws, counter)
+        built = [build(env, p, draws, counter if p.get('shared_ids') else [0], group) for p in peers]
+    run = build(env, c, draws, counter, group)
     if not c.get('peers_first'):
-        built = [build(env, p, draws, counter if p.get('shared_ids') else [0]) for p in peers]
+        built = [build(env, p, draws, counter if p.get('shared_ids') else [0], group) for p in peers]
     run.peers = built
+    group.update(first=run, all=[run] + built)
     old = red_mod.random
     if draws is not None:
         red_mod.random = draws
@@ -293,6 +355,17 @@ def oracle(c, run):
         fails.append({'what': 'packets_received != accepted + packets_dropped', 'signature': 'port-counters'})
     if p.byte_size != 0:
         fails.append({'what': f'byte_size = {p.byte_size} with nothing held', 'signature': 'port-bytes-held'})
+    # "each packet is stamped with its arrival time at this hop under the port's element id" - every packet handed to put(), accepted or
+    # refused, fresh or already carrying a stamp under that id (the same object offered again, a second lap, an earlier hop with the
+    # same element id): right after the put the entry under the port's id is the instant of THIS arrival.  (A REDPort does not stamp.)
+    led = getattr(run, 'ledger', None)
+    if led is not None and c['hasid'] and c['mode'] != 'red' and led.badstamp:
+        t, pid, found, before = led.badstamp[0]
+        why = 'it carried no stamp under that id before' if before is None else \
+            f'it arrived carrying the stamp {before!r} under that id (the object had been offered before to a port with this element id)'
+        fails.append({'what': f'packet {pid} was handed to the port (element id {p.element_id!r}) at {t!r}; after the put its per-hop table holds '
+                              f'{found!r} under that id instead of the arrival time at this hop; {why} ({len(led.badstamp)} such puts)',
+                      'signature': 'port-perhop-stamp'})
     if c['hasid'] and c['mode'] != 'red' and run.stamps != p.packets_received:
         fails.append({'what': f'{p.packets_received} packets received, {run.stamps} stamped with their arrival time under the element id', 'signature': 'port-perhop'})
     # "With a byte limit a packet is refused iff the bytes held (waiting plus in transmission) plus its size would exceed
@@ -522,6 +595,10 @@ def run(ctx):
             nontriv += 1
         distinct.add(key)
         for label, uc, ur in units(c, r):
+            if uc.get('reoffer'):
+                hist['ports_offered_existing_packet_objects_again'] += 1
+            if uc['hasid'] and uc['mode'] != 'red':
+                hist['puts_of_packets_already_stamped_under_the_port_id'] += ur.ledger.restamped
             ua, ub = ur.obs, model.get(uc['cid'])
             if ua != ub:
                 i = next((i for i in range(max(len(ua), len(ub or []))) if i >= len(ua) or not ub or i >= len(ub) or ua[i] != ub[i]), 0)
